@@ -760,24 +760,29 @@ class WorkflowStateMachine(object):
             workflow_state.status = new_workflow_status
 
         # If the final workflow status here is completed, then ensure there is no unreachable
-        # barrier task(s). A barrier task is unreachable if the workflow is completed but then one
-        # or more criteria for the task is satisified. In this case, log the task and fail the
-        # workflow to notify that the execution is incomplete but unable to proceed. A canceled
-        # workflow is excluded because the cancelation is what kept the barrier from being reached.
+        # barrier task(s). A canceled workflow is excluded because the cancelation is what
+        # kept the barrier from being reached.
         if (
             workflow_state.status in statuses.COMPLETED_STATUSES
             and workflow_state.status != statuses.CANCELED
         ):
-            unreachable_barriers = workflow_state.get_unreachable_barriers()
+            cls.fail_on_unreachable_barriers(workflow_state)
 
-            # If there are unreachable barrier tasks, then change workflow status to failed
-            # and write an error log for each case.
-            if unreachable_barriers:
-                workflow_state.status = statuses.FAILED
+    @classmethod
+    def fail_on_unreachable_barriers(cls, workflow_state):
+        # A barrier task is unreachable if the workflow is completed but then one or more
+        # criteria for the task is satisified. In this case, log the task and fail the
+        # workflow to notify that the execution is incomplete but unable to proceed.
+        unreachable_barriers = workflow_state.get_unreachable_barriers()
 
-                for entry in unreachable_barriers:
-                    e = exc.UnreachableJoinError(entry["id"], entry["route"])
-                    workflow_state.conductor.log_error(e, task_id=entry["id"], route=entry["route"])
+        # If there are unreachable barrier tasks, then change workflow status to failed
+        # and write an error log for each case.
+        if unreachable_barriers:
+            workflow_state.status = statuses.FAILED
+
+            for entry in unreachable_barriers:
+                e = exc.UnreachableJoinError(entry["id"], entry["route"])
+                workflow_state.conductor.log_error(e, task_id=entry["id"], route=entry["route"])
 
     @classmethod
     def add_context_to_workflow_event(cls, workflow_state, wf_ex_event):
@@ -831,6 +836,11 @@ class WorkflowStateMachine(object):
         # Assign new workflow status if there is change.
         if current_workflow_status != new_workflow_status:
             workflow_state.status = new_workflow_status
+
+            # A paused workflow that is already completed succeeds on resume. As when the last
+            # task completes, ensure there is no unreachable barrier task(s).
+            if new_workflow_status == statuses.SUCCEEDED:
+                cls.fail_on_unreachable_barriers(workflow_state)
 
     @classmethod
     def process_event(cls, workflow_state, event):
